@@ -69,6 +69,16 @@ def _has_sym(o):
     return False
 
 
+def _jsonable(o):
+    """what json would make of the containers, proxies kept as they are"""
+    if isinstance(o, dict):
+        return {(_jsonable(k) if not isinstance(k, str) else k): _jsonable(v)
+                for k, v in o.items()}
+    if isinstance(o, (list, tuple, set, frozenset)):
+        return [_jsonable(v) for v in o]
+    return o
+
+
 class JsonShim:
     def __getattr__(self, k):
         return getattr(_real_jsonutils, k)
@@ -84,7 +94,7 @@ class JsonShim:
     def dumps(obj, *a, **kw):
         if _has_sym(obj):
             n = len(RESPDOCS) + 1
-            RESPDOCS[n] = obj
+            RESPDOCS[n] = _jsonable(obj)
             return '{"$resp": %d}' % n
         return _real_jsonutils.dumps(obj, *a, **kw)
 
